@@ -27,6 +27,7 @@ Accepts(tool, a) ==
     [] tool = "sign-bundle signatures-section" -> a.kind = "bundle" /\ a.sign = "none"
     [] tool = "sign-bundle integrity-block" -> a.kind = "bundle" /\ a.sign = "none"
     [] tool = "dump-certurl" -> a.kind = "certcbor"
+    [] tool = "dump-signedexchange view" -> a.kind \in {"sxg", "certcbor"}
     [] tool = "dump-signedexchange -verify" -> a.kind \in {"sxg", "certcbor"}
     [] OTHER -> FALSE
 
@@ -83,7 +84,35 @@ SxgDefaultPipelines ==
 HarPipelines ==
   { << Step("gen-bundle -har", {"har"}, [kind |-> "bundle", sign |-> "none", ver |-> v], [ver |-> v, har |-> h]),
        Step("dump-bundle", {"bundle"}, [kind |-> "text"], [x |-> 0]) >> : v \in BundleVers, h \in {"mixed"} }
+\* the inputs that come over the network, against an origin server on the loopback interface.
+\* gen-bundle -URLList: one exchange per listed URL (blank lines and # comments skipped, surrounding white space trimmed, a
+\* URL listed twice fetched once), holding what the server answered (after redirects): status, header fields, body
+UrlListClasses == {"plain", "comments", "query", "redirect", "headers", "emptybody"}
+UrlListPipelines ==
+  { << Step("gen-bundle -URLList", {"urllist", "server"}, [kind |-> "bundle", sign |-> "none", ver |-> v], [ver |-> v, ul |-> c]),
+       Step("dump-bundle", {"bundle"}, [kind |-> "text"], [x |-> 0]) >> : v \in BundleVers, c \in UrlListClasses }
+\* gen-certurl without -ocsp asks the responder named in the leaf certificate: POST with the DER request as body, or (RFC 5019,
+\* -preferGET) GET <responder>/<url-escaped base64 of the same request> when that URL has at most 255 characters; what the
+\* responder answers is the ocsp value of the chain
+OcspFetchModes == {"post", "get", "gettoolong"}
+OcspFetchPipelines ==
+  { << Step("gen-certurl", {"pemchain", "server"}, [kind |-> "certcbor"], [ncerts |-> 2, curve |-> "p256-ocspleaf", sct |-> FALSE, fetch |-> m]),
+       Step("dump-certurl", {"certcbor"}, [kind |-> "text"], [x |-> 0]) >> : m \in OcspFetchModes }
+\* dump-signedexchange's views of one exchange: each prints a function of the file (header integrity, the Signature header,
+\* a JSON summary with the verdict, the verified payload)
+SxgViews == {"headerIntegrity", "signature", "json", "payloadonly"}
+SxgViewPipelines ==
+  { << Step("gen-certurl", {"pemchain", "ocsp"}, [kind |-> "certcbor"], [ncerts |-> 1, curve |-> "p256", sct |-> FALSE]),
+       Step("gen-signedexchange", {"content", "pemchain", "eckey"}, [kind |-> "sxg", ver |-> v], [ver |-> v, view |-> w]),
+       Step("dump-signedexchange view", {"sxg", "certcbor"}, [kind |-> "text"], [view |-> w]) >> : v \in SxgVers, w \in SxgViews }
+\* dump-signedexchange -verify WITHOUT -cert fetches the chain from the exchange's own cert-url (https: a loopback TLS
+\* server whose certificate the process is told to trust)
+SxgFetchPipelines ==
+  { << Step("gen-certurl", {"pemchain", "ocsp"}, [kind |-> "certcbor"], [ncerts |-> nc, curve |-> "p256", sct |-> FALSE]),
+       Step("gen-signedexchange", {"content", "pemchain", "eckey"}, [kind |-> "sxg", ver |-> v], [ver |-> v, certfetch |-> f]),
+       Step("dump-signedexchange -verify", {"sxg", "certcbor"}, [kind |-> "text"], [x |-> 0]) >> : v \in SxgVers, nc \in {1, 2}, f \in {"served", "missing", "other"} }
 Pipelines == DirPipelines \cup CertPipelines \cup SxgPipelines \cup HarPipelines \cup SxgFlagPipelines \cup DirSpellingPipelines \cup SxgDefaultPipelines
+             \cup UrlListPipelines \cup OcspFetchPipelines \cup SxgViewPipelines \cup SxgFetchPipelines
 
 \* CLOSURE: whenever a later step consumes the kind an earlier step produced, that artefact is one the
 \* consumer is specified to accept
